@@ -166,7 +166,7 @@ func (e *eventV1) Redact() {
 		panic(fmt.Errorf("gomatrixserverlib: invalid event %v", err))
 	}
 	var res eventV1
-	err = json.Unmarshal(eventJSON, &res)
+	err = json.Unmarshal(dropCaseVariantKeys(eventJSON), &res)
 	if err != nil {
 		panic(fmt.Errorf("gomatrixserverlib: populateFieldsFromJSON failed %v", err))
 	}
@@ -390,7 +390,7 @@ func newEventFromUntrustedJSONV1(eventJSON []byte, roomVersion IRoomVersion) (PD
 
 func newEventFromTrustedJSONV1(eventJSON []byte, redacted bool, roomVersion IRoomVersion) (PDU, error) {
 	res := &eventV1{}
-	if err := json.Unmarshal(eventJSON, &res); err != nil {
+	if err := json.Unmarshal(dropCaseVariantKeys(eventJSON), &res); err != nil {
 		return nil, err
 	}
 
@@ -406,7 +406,7 @@ func newEventFromTrustedJSONV1(eventJSON []byte, redacted bool, roomVersion IRoo
 
 func newEventFromTrustedJSONWithEventIDV1(eventID string, eventJSON []byte, redacted bool, roomVersion IRoomVersion) (PDU, error) {
 	res := &eventV1{}
-	if err := json.Unmarshal(eventJSON, &res); err != nil {
+	if err := json.Unmarshal(dropCaseVariantKeys(eventJSON), &res); err != nil {
 		return nil, err
 	}
 
